@@ -83,6 +83,10 @@ def run_cases(args):
             re3 = Dataset(root)
             edited_same = bool(edited_same) and jeq(json.loads(re3._dataset_info.model_dump_json()), json.loads(ds._dataset_info.model_dump_json())) \
                 and re3.metadata.description == ds.metadata.description
+            if i < args.get("keep", 0):
+                keep = base.parent / f"c20_keep_{i}"
+                shutil.rmtree(keep, ignore_errors=True); shutil.copytree(root, keep)
+                out.setdefault("kept", []).append({"root": str(keep), "info": json.loads(Dataset(keep)._dataset_info.model_dump_json()), "shard_md": shard_md, "n": 3})
             out["descr"].append({"i": i, "fmt": fmt, "comp": comp, "same": bool(same), "same_json": same_json, "edited_same": bool(edited_same),
                                  # (type-exact: `True == 1` in Python, a boolean that comes back as a number is a different JSON value)
                                  "shard_md_ok": all(json.dumps(m, sort_keys=True) == json.dumps(shard_md, sort_keys=True) for m in sm) and len(sm) > 0, "md": json.loads(md.model_dump_json())})
@@ -180,12 +184,73 @@ def run_cases(args):
     return out
 
 
+def other_locale(args):
+    """(child started with LC_ALL=C PYTHONUTF8=0 PYTHONCOERCECLOCALE=0: the default text encoding is ASCII) — the description files are
+    UTF-8 whatever the process's locale: create / fill / reopen / check / continue, and open a dataset a UTF-8 process wrote."""
+    import locale
+    sp.sedpack()
+    from sedpack.io import Dataset, Metadata, DatasetStructure, Attribute
+    out = {"encoding": locale.getpreferredencoding(False), "steps": []}
+    base = Path(args["base"]); base.mkdir(parents=True, exist_ok=True)
+    def step(name, fn):
+        try:
+            out["steps"].append({"step": name, "ok": fn()})
+        except Exception as e:  # noqa: BLE001
+            out["steps"].append({"step": name, "error": f"{type(e).__name__}: {str(e)[:160]}"})
+    smd = {"site": "Zürich", "note": "ünï©ødé ☃", "k": [1, "é"]}
+    for fmt in args["fmts"]:
+        root = base / f"own_{fmt}"
+        md = Metadata(description="déscription ☃", dataset_license="lïcence", custom_metadata={"ключ": ["значение", 1, None]})
+        st = DatasetStructure(saved_data_description=[Attribute(name="a", dtype="int32", shape=(2,), custom_metadata={"unit": "µV"})], compression="", examples_per_shard=2, shard_file_type=fmt)
+        def create():
+            ds = Dataset.create(root, md, st)
+            with ds.filler() as f:
+                for v in range(3):
+                    f.write_example(values=sp.val(v), split="train", custom_metadata=smd)
+            return True
+        step(f"{fmt}: create and fill with non-ASCII text at dataset / attribute / shard level", create)
+        def reopen():
+            d = Dataset(root)
+            sm = [si.custom_metadata for si in d.shard_info_iterator("train")]
+            d.check(show_progressbar=False)
+            return d.metadata.description == md.description and jeq(d.metadata.custom_metadata, md.custom_metadata) \
+                and d.dataset_structure.saved_data_description[0].custom_metadata == {"unit": "µV"} and len(sm) == 2 and all(jeq(m, smd) for m in sm) \
+                and sorted(sp.read_ids(d, "train")) == [0, 1, 2]
+        step(f"{fmt}: reopen, compare, check, iterate", reopen)
+        def cont():
+            d = Dataset(root)
+            with d.filler() as f:
+                f.write_example(values=sp.val(7), split="train", custom_metadata=smd)
+            return sorted(sp.read_ids(Dataset(root), "train")) == [0, 1, 2, 7]
+        step(f"{fmt}: continue writing and reopen", cont)
+    for ex in args["existing"]:
+        def foreign():
+            d = Dataset(ex["root"])
+            sm = [si.custom_metadata for si in d.shard_info_iterator("train")]
+            d.check(show_progressbar=False)
+            ok = jeq(json.loads(d._dataset_info.model_dump_json()), ex["info"]) and all(jeq(m, ex["shard_md"]) for m in sm) and len(sm) > 0
+            with d.filler() as f:
+                f.write_example(values={"a": sp.np.array([50, 50], dtype=sp.np.int32), "bé": sp.np.float32(1.5)}, split="train", custom_metadata=ex["shard_md"])
+            return ok and len(sp.read_ids(Dataset(ex["root"]), "train")) == ex["n"] + 1
+        step(f"open / check / continue a dataset written by a UTF-8 process ({Path(ex['root']).name})", foreign)
+    return out
+
+
 def run(ctx):
     rng = ctx.rng("c20")
     versions = [[0, 0, 7], [0, 0, 6], [0, 0, 8], [0, 0, 10], [0, 0, 69], [0, 1, 0], [1, 0, 0], [0, 0, 0], [0, 10, 0], [10, 0, 0], [0, 0, 70], [0, 0, 100]]
     versions += [[rng.choice([0, 0, 1, 12]), rng.choice([0, 0, 2, 30]), rng.choice([0, 5, 7, 9, 11, 123])] for _ in range(ctx.pick(6, 40))]
     res = child.call("harness.checks.c20", "run_cases", {"base": str(ctx.scratch / "c20"), "seed": rng.randrange(1 << 30), "n_descr": ctx.pick(9, 60),
-                                                         "move_fmts": ["fb"] if not ctx.thorough else ["fb", "npz", "tfrec"], "versions": versions, "n_defaults": ctx.pick(30, 300)}, timeout=1800)
+                                                         "move_fmts": ["fb"] if not ctx.thorough else ["fb", "npz", "tfrec"], "versions": versions, "n_defaults": ctx.pick(30, 300), "keep": 2}, timeout=1800)
+    # ---- the same under another default text encoding (a process whose locale is not UTF-8)
+    loc = child.call("harness.checks.c20", "other_locale", {"base": str(ctx.scratch / "c20_locale"), "fmts": ["npz", "fb"] if not ctx.thorough else ["npz", "fb", "tfrec"], "existing": res.get("kept", [])},
+                     timeout=900, env={"LC_ALL": "C", "LANG": "C", "PYTHONUTF8": "0", "PYTHONCOERCECLOCALE": "0"})
+    for st_ in loc["steps"]:
+        if st_.get("ok") is not True:
+            ctx.report({"kind": "locale", "step": st_["step"].split(":")[-1].strip()[:40]},
+                       f"in a process whose default text encoding is {loc['encoding']} (LC_ALL=C, UTF-8 mode off): {st_['step']} -> {st_.get('error', 'differs')}",
+                       {"locale_env": {"LC_ALL": "C", "PYTHONUTF8": "0", "PYTHONCOERCECLOCALE": "0"}, "encoding": loc["encoding"], "step": st_})
+    for k_ in res.get("kept", []): shutil.rmtree(k_["root"], ignore_errors=True)
     running = res["running"]
     for d in res["descr"]:
         if "error" in d:
@@ -222,11 +287,12 @@ def run(ctx):
         ctx.report({"kind": "correspondence"}, f"M-VER disagrees with the implementation: {corr_bad[0]}",
                    {"correspondence": "Ver.loads vs DatasetBase._load; Ver.dump/load vs pydantic exclude_defaults", "theorem": "Sedpack.Ver.C20_gate", "cases": corr_bad[:3]}, name="corr", nofail=True)
     ctx.cov.update({
-        "evaluations": len(res["descr"]) + len(res["moves"]) + len(res["versions"]) + len(res["defaults"]),
+        "evaluations": len(res["descr"]) + len(res["moves"]) + len(res["versions"]) + len(res["defaults"]) + len(loc["steps"]),
+        "other_locale": {"encoding": loc["encoding"], "steps": len(loc["steps"])},
         "distinct_nontrivial": len({(d.get("fmt"), d.get("comp")) for d in res["descr"]}) + len({tuple(v["recorded"]) for v in res["versions"]}) + len({(m["kind"], m["target"]) for m in res["moves"]}),
         "traces_validated_against_impl": len(res["versions"]) + len(res["defaults"]) - len(corr_bad),
         "rule": "descriptions with unicode text and random nested JSON custom metadata at dataset/attribute/shard level over every format x compression x algorithm subset; copies/moves to nested, "
-                "unicode, blank-containing and cwd-relative locations followed by open/check/iterate/continue-writing; version triples around the running version incl. multi-digit components; "
+                "unicode, blank-containing and cwd-relative locations followed by open/check/iterate/continue-writing; the create / reopen / check / continue cycle and the opening of a dataset written by a UTF-8 process repeated in a child process whose default text encoding is ASCII; version triples around the running version incl. multi-digit components; "
                 "random ShardsList documents through dump(exclude_defaults)/validate",
         "samples": [res["descr"][0], res["moves"][0], res["versions"][3]],
         "input_distribution": {"descriptions": len(res["descr"]), "moves": len(res["moves"]), "versions": len(res["versions"]), "defaults": len(res["defaults"]), "running": running},
